@@ -144,11 +144,21 @@ def normMap (m : Option (List (String × NodeId))) : Option (List (String × Nod
   | some (e :: es) => some (sortKV (e :: es))
   | _ => none
 
-/-- a non-schema map with `omitempty` ($vocabulary, dependentRequired): empty comes back nil, otherwise in ascending key order -/
+/-- a non-schema map with `omitempty` (dependentRequired): empty comes back nil, otherwise in ascending key order -/
 def normKV {α : Type} (m : Option (List (String × α))) : Option (List (String × α)) :=
   match m with
   | some (e :: es) => some (sortKV (e :: es))
   | _ => none
+
+/-- `$vocabulary` is written through the wrapper struct of MarshalJSON (`Vocabulary any`): only nil is omitted, so
+    there is no nil-vs-empty normal form for it — a non-nil map comes back non-nil, in ascending key order (the empty
+    map as the empty map) -/
+def normVocab (m : Option (List (String × Bool))) : Option (List (String × Bool)) := m.map sortKV
+
+theorem normVocab_none : normVocab none = none := rfl
+theorem normVocab_nil : normVocab (some []) = some [] := rfl
+theorem normVocab_isSome (m : Option (List (String × Bool))) : (normVocab m).isSome = m.isSome := by
+  cases m <;> rfl
 
 /-- `examples` (omitempty): empty comes back nil -/
 def normJL (l : Option (List Json)) : Option (List Json) :=
@@ -258,7 +268,7 @@ def normNode (n : Node) : Node :=
     patternProperties := normMap n.patternProperties, dependentSchemas := normMap n.dependentSchemas,
     prefixItems := normList n.prefixItems, allOf := normList n.allOf,
     dependencySchemas := normMap n.dependencySchemas, dependencyStrings := normDepStrs n.dependencyStrings,
-    vocabulary := normKV n.vocabulary, dependentRequired := normKV n.dependentRequired,
+    vocabulary := normVocab n.vocabulary, dependentRequired := normKV n.dependentRequired,
     examples := normJL n.examples }
 
 /-- `TreeEq st st' d a b`: the tree below `b` in `st'` is the tree below `a` in `st` up to `normNode` at every
@@ -1101,21 +1111,18 @@ theorem decBoolMap_bools (l : List (String × Bool)) :
 
 theorem sf_vocab (urec : URec) (N m : Node) (st : Store) (rest : List (String × Json))
     (hm : ({ m with vocabulary := none } : Node) = m) :
-    setFields urec (mVocab N ++ rest) m st = setFields urec rest { m with vocabulary := normKV N.vocabulary } st := by
+    setFields urec (mVocab N ++ rest) m st = setFields urec rest { m with vocabulary := normVocab N.vocabulary } st := by
   unfold mVocab
   cases h : N.vocabulary with
   | none => exact (congrArg (fun x => setFields urec rest x st) hm).symm
   | some l =>
-    cases l with
-    | nil => exact (congrArg (fun x => setFields urec rest x st) hm).symm
-    | cons v vs =>
-      dsimp only
-      rw [sortKV_map_val (fun x : String × Bool => (x.1, Json.bool x.2)) (fun _ => rfl)]
-      have e2 : ∀ v', setField urec m st "$vocabulary" v' =
-          Res.bind (decBoolMap v') fun r => .ok ({ m with vocabulary := r }, st) := fun _ => rfl
-      simp only [List.cons_append, List.nil_append,
-        setFields_cons_canon urec _ _ _ _ (show canonKey "$vocabulary" = "$vocabulary" by decide), e2,
-        decBoolMap_bools, Res.bind_ok, normKV]
+    dsimp only
+    rw [sortKV_map_val (fun x : String × Bool => (x.1, Json.bool x.2)) (fun _ => rfl)]
+    have e2 : ∀ v', setField urec m st "$vocabulary" v' =
+        Res.bind (decBoolMap v') fun r => .ok ({ m with vocabulary := r }, st) := fun _ => rfl
+    simp only [List.cons_append, List.nil_append,
+      setFields_cons_canon urec _ _ _ _ (show canonKey "$vocabulary" = "$vocabulary" by decide), e2,
+      decBoolMap_bools, Res.bind_ok, normVocab, Option.map_some]
 
 theorem decStrList_optStrs (l : Option (List String)) : decStrList (optStrs l) = .ok l := by
   cases l with
@@ -1231,7 +1238,7 @@ set_option linter.unusedSimpArgs false
 /-- the members of a node in emission order, given the marshalled schema-valued members, as a right-nested
     append; `tail` is Extra -/
 def treeMembers (n : Node) (props : List (String × Json)) (deps : Option Json) (items defs definitions prefixItems additionalItems contains unevaluatedItems patternProperties additionalProperties propertyNames unevaluatedProperties allOf anyOf oneOf not_ if_ then_ else_ dependentSchemas contentSchema : List (String × Json)) (tail : List (String × Json)) : List (String × Json) :=
-  mTyp n ++ (props ++ (mem "dependencies" deps ++ (items ++ (mem "enum" (n.enum.map fun l => sortJson (.arr l)) ++ (anyOf ++ (oneOf ++ (mStr "$id" n.id ++ (mStr "$schema" n.schema ++ (mStr "$ref" n.ref ++ (mStr "$comment" n.comment ++ (defs ++ (definitions ++ (mStr "$anchor" n.anchor ++ (mStr "$dynamicAnchor" n.dynamicAnchor ++ (mStr "$dynamicRef" n.dynamicRef ++ (mVocab n ++ (mStr "title" n.title ++ (mStr "description" n.description ++ (mem "default" n.default ++ (mBool "deprecated" n.deprecated ++ (mBool "readOnly" n.readOnly ++ (mBool "writeOnly" n.writeOnly ++ (mNonEmptyList "examples" n.examples ++ (mem "const" (n.const.map sortJson) ++ (mNum "multipleOf" n.multipleOf ++ (mNum "minimum" n.minimum ++ (mNum "maximum" n.maximum ++ (mNum "exclusiveMinimum" n.exclusiveMinimum ++ (mNum "exclusiveMaximum" n.exclusiveMaximum ++ (mInt "minLength" n.minLength ++ (mInt "maxLength" n.maxLength ++ (mStr "pattern" n.pattern ++ (prefixItems ++ (mInt "minItems" n.minItems ++ (mInt "maxItems" n.maxItems ++ (additionalItems ++ (mBool "uniqueItems" n.uniqueItems ++ (contains ++ (mInt "minContains" n.minContains ++ (mInt "maxContains" n.maxContains ++ (unevaluatedItems ++ (mInt "minProperties" n.minProperties ++ (mInt "maxProperties" n.maxProperties ++ (mRequired n ++ (mDepReq n ++ (patternProperties ++ (additionalProperties ++ (propertyNames ++ (unevaluatedProperties ++ (allOf ++ (not_ ++ (if_ ++ (then_ ++ (else_ ++ (dependentSchemas ++ (mStr "contentEncoding" n.contentEncoding ++ (mStr "contentMediaType" n.contentMediaType ++ (contentSchema ++ (mStr "format" n.format ++ (tail))))))))))))))))))))))))))))))))))))))))))))))))))))))))))))
+  mTyp n ++ (props ++ (mem "dependencies" deps ++ (items ++ (mem "enum" (n.enum.map fun l => sortJson (.arr l)) ++ (anyOf ++ (oneOf ++ (mVocab n ++ (mStr "$id" n.id ++ (mStr "$schema" n.schema ++ (mStr "$ref" n.ref ++ (mStr "$comment" n.comment ++ (defs ++ (definitions ++ (mStr "$anchor" n.anchor ++ (mStr "$dynamicAnchor" n.dynamicAnchor ++ (mStr "$dynamicRef" n.dynamicRef ++ (mStr "title" n.title ++ (mStr "description" n.description ++ (mem "default" n.default ++ (mBool "deprecated" n.deprecated ++ (mBool "readOnly" n.readOnly ++ (mBool "writeOnly" n.writeOnly ++ (mNonEmptyList "examples" n.examples ++ (mem "const" (n.const.map sortJson) ++ (mNum "multipleOf" n.multipleOf ++ (mNum "minimum" n.minimum ++ (mNum "maximum" n.maximum ++ (mNum "exclusiveMinimum" n.exclusiveMinimum ++ (mNum "exclusiveMaximum" n.exclusiveMaximum ++ (mInt "minLength" n.minLength ++ (mInt "maxLength" n.maxLength ++ (mStr "pattern" n.pattern ++ (prefixItems ++ (mInt "minItems" n.minItems ++ (mInt "maxItems" n.maxItems ++ (additionalItems ++ (mBool "uniqueItems" n.uniqueItems ++ (contains ++ (mInt "minContains" n.minContains ++ (mInt "maxContains" n.maxContains ++ (unevaluatedItems ++ (mInt "minProperties" n.minProperties ++ (mInt "maxProperties" n.maxProperties ++ (mRequired n ++ (mDepReq n ++ (patternProperties ++ (additionalProperties ++ (propertyNames ++ (unevaluatedProperties ++ (allOf ++ (not_ ++ (if_ ++ (then_ ++ (else_ ++ (dependentSchemas ++ (mStr "contentEncoding" n.contentEncoding ++ (mStr "contentMediaType" n.contentMediaType ++ (contentSchema ++ (mStr "format" n.format ++ (tail))))))))))))))))))))))))))))))))))))))))))))))))))))))))))))
 
 theorem mMembers_tree (n : Node) (props : List (String × Json)) (deps : Option Json) (items defs definitions prefixItems additionalItems contains unevaluatedItems patternProperties additionalProperties propertyNames unevaluatedProperties allOf anyOf oneOf not_ if_ then_ else_ dependentSchemas contentSchema : List (String × Json)) :
     mMembers n props deps items defs definitions prefixItems additionalItems contains unevaluatedItems patternProperties additionalProperties propertyNames unevaluatedProperties allOf anyOf oneOf not_ if_ then_ else_ dependentSchemas contentSchema = treeMembers n props deps items defs definitions prefixItems additionalItems contains unevaluatedItems patternProperties additionalProperties propertyNames unevaluatedProperties allOf anyOf oneOf not_ if_ then_ else_ dependentSchemas contentSchema (mExtra n) := by
@@ -1240,7 +1247,7 @@ theorem mMembers_tree (n : Node) (props : List (String × Json)) (deps : Option 
 
 /-- the node UnmarshalJSON builds from the members of `n`, given the rebuilt children -/
 def finalNode (n : Node) (c_props : Option (List (String × NodeId))) (c_deps : Option (List (String × NodeId))) (c_items : Option NodeId) (c_itemsArray : Option (List NodeId)) (c_anyOf : Option (List NodeId)) (c_oneOf : Option (List NodeId)) (c_defs : Option (List (String × NodeId))) (c_definitions : Option (List (String × NodeId))) (c_prefixItems : Option (List NodeId)) (c_additionalItems : Option NodeId) (c_contains : Option NodeId) (c_unevaluatedItems : Option NodeId) (c_patternProperties : Option (List (String × NodeId))) (c_additionalProperties : Option NodeId) (c_propertyNames : Option NodeId) (c_unevaluatedProperties : Option NodeId) (c_allOf : Option (List NodeId)) (c_not_ : Option NodeId) (c_if_ : Option NodeId) (c_then_ : Option NodeId) (c_else_ : Option NodeId) (c_dependentSchemas : Option (List (String × NodeId))) (c_contentSchema : Option NodeId) : Node :=
-  { type := n.type, types := n.types, id := n.id, schema := n.schema, ref := n.ref, comment := n.comment, anchor := n.anchor, dynamicAnchor := n.dynamicAnchor, dynamicRef := n.dynamicRef, title := n.title, description := n.description, deprecated := n.deprecated, readOnly := n.readOnly, writeOnly := n.writeOnly, multipleOf := n.multipleOf, minimum := n.minimum, maximum := n.maximum, exclusiveMinimum := n.exclusiveMinimum, exclusiveMaximum := n.exclusiveMaximum, minLength := n.minLength, maxLength := n.maxLength, pattern := n.pattern, minItems := n.minItems, maxItems := n.maxItems, uniqueItems := n.uniqueItems, minContains := n.minContains, maxContains := n.maxContains, minProperties := n.minProperties, maxProperties := n.maxProperties, contentEncoding := n.contentEncoding, contentMediaType := n.contentMediaType, format := n.format, required := normReq n.required, extra := normExtra n.extra, enum := n.enum, const := n.const, default := n.default, examples := normJL n.examples, vocabulary := normKV n.vocabulary, dependentRequired := normKV n.dependentRequired, dependencyStrings := normDepStrs n.dependencyStrings, properties := c_props, dependencySchemas := c_deps, items := c_items, itemsArray := c_itemsArray, anyOf := c_anyOf, oneOf := c_oneOf, defs := c_defs, definitions := c_definitions, prefixItems := c_prefixItems, additionalItems := c_additionalItems, contains := c_contains, unevaluatedItems := c_unevaluatedItems, patternProperties := c_patternProperties, additionalProperties := c_additionalProperties, propertyNames := c_propertyNames, unevaluatedProperties := c_unevaluatedProperties, allOf := c_allOf, not := c_not_, if_ := c_if_, then_ := c_then_, else_ := c_else_, dependentSchemas := c_dependentSchemas, contentSchema := c_contentSchema }
+  { type := n.type, types := n.types, id := n.id, schema := n.schema, ref := n.ref, comment := n.comment, anchor := n.anchor, dynamicAnchor := n.dynamicAnchor, dynamicRef := n.dynamicRef, title := n.title, description := n.description, deprecated := n.deprecated, readOnly := n.readOnly, writeOnly := n.writeOnly, multipleOf := n.multipleOf, minimum := n.minimum, maximum := n.maximum, exclusiveMinimum := n.exclusiveMinimum, exclusiveMaximum := n.exclusiveMaximum, minLength := n.minLength, maxLength := n.maxLength, pattern := n.pattern, minItems := n.minItems, maxItems := n.maxItems, uniqueItems := n.uniqueItems, minContains := n.minContains, maxContains := n.maxContains, minProperties := n.minProperties, maxProperties := n.maxProperties, contentEncoding := n.contentEncoding, contentMediaType := n.contentMediaType, format := n.format, required := normReq n.required, extra := normExtra n.extra, enum := n.enum, const := n.const, default := n.default, examples := normJL n.examples, vocabulary := normVocab n.vocabulary, dependentRequired := normKV n.dependentRequired, dependencyStrings := normDepStrs n.dependencyStrings, properties := c_props, dependencySchemas := c_deps, items := c_items, itemsArray := c_itemsArray, anyOf := c_anyOf, oneOf := c_oneOf, defs := c_defs, definitions := c_definitions, prefixItems := c_prefixItems, additionalItems := c_additionalItems, contains := c_contains, unevaluatedItems := c_unevaluatedItems, patternProperties := c_patternProperties, additionalProperties := c_additionalProperties, propertyNames := c_propertyNames, unevaluatedProperties := c_unevaluatedProperties, allOf := c_allOf, not := c_not_, if_ := c_if_, then_ := c_then_, else_ := c_else_, dependentSchemas := c_dependentSchemas, contentSchema := c_contentSchema }
 
 theorem finalNode_eq (n : Node) (c_props : Option (List (String × NodeId))) (c_deps : Option (List (String × NodeId))) (c_items : Option NodeId) (c_itemsArray : Option (List NodeId)) (c_anyOf : Option (List NodeId)) (c_oneOf : Option (List NodeId)) (c_defs : Option (List (String × NodeId))) (c_definitions : Option (List (String × NodeId))) (c_prefixItems : Option (List NodeId)) (c_additionalItems : Option NodeId) (c_contains : Option NodeId) (c_unevaluatedItems : Option NodeId) (c_patternProperties : Option (List (String × NodeId))) (c_additionalProperties : Option NodeId) (c_propertyNames : Option NodeId) (c_unevaluatedProperties : Option NodeId) (c_allOf : Option (List NodeId)) (c_not_ : Option NodeId) (c_if_ : Option NodeId) (c_then_ : Option NodeId) (c_else_ : Option NodeId) (c_dependentSchemas : Option (List (String × NodeId))) (c_contentSchema : Option NodeId) :
     finalNode n c_props c_deps c_items c_itemsArray c_anyOf c_oneOf c_defs c_definitions c_prefixItems c_additionalItems c_contains c_unevaluatedItems c_patternProperties c_additionalProperties c_propertyNames c_unevaluatedProperties c_allOf c_not_ c_if_ c_then_ c_else_ c_dependentSchemas c_contentSchema =
@@ -1403,6 +1410,8 @@ theorem node_chain {st : Store} {mrec : MRec} {urec : URec} {G : Nat} {Q : Store
     dsimp only
     refine (h_oneOf _ _ rfl).trans ?_
     dsimp only
+    refine (sf_vocab urec n _ s5 _ rfl).trans ?_
+    dsimp only
     refine (sf_str_gen (K := "$id") (upd := fun m s => { m with id := s }) (fun _ _ _ => rfl) (by decide) _ s5 n.id _ rfl).trans ?_
     dsimp only
     refine (sf_str_gen (K := "$schema") (upd := fun m s => { m with schema := s }) (fun _ _ _ => rfl) (by decide) _ s5 n.schema _ rfl).trans ?_
@@ -1420,8 +1429,6 @@ theorem node_chain {st : Store} {mrec : MRec} {urec : URec} {G : Nat} {Q : Store
     refine (sf_str_gen (K := "$dynamicAnchor") (upd := fun m s => { m with dynamicAnchor := s }) (fun _ _ _ => rfl) (by decide) _ s7 n.dynamicAnchor _ rfl).trans ?_
     dsimp only
     refine (sf_str_gen (K := "$dynamicRef") (upd := fun m s => { m with dynamicRef := s }) (fun _ _ _ => rfl) (by decide) _ s7 n.dynamicRef _ rfl).trans ?_
-    dsimp only
-    refine (sf_vocab urec n _ s7 _ rfl).trans ?_
     dsimp only
     refine (sf_str_gen (K := "title") (upd := fun m s => { m with title := s }) (fun _ _ _ => rfl) (by decide) _ s7 n.title _ rfl).trans ?_
     dsimp only
@@ -1813,23 +1820,14 @@ theorem mExamples_norm (n : Node) : mNonEmptyList "examples" (normNode n).exampl
 
 theorem mVocab_norm (n : Node) : mVocab (normNode n) = mVocab n := by
   unfold mVocab
-  show (match normKV n.vocabulary with
-    | some (v :: vs) => [("$vocabulary", Json.obj (sortKV ((v :: vs).map fun (k, b) => (k, Json.bool b))))]
-    | _ => []) = _
+  show (match normVocab n.vocabulary with
+    | some vs => [("$vocabulary", Json.obj (sortKV (vs.map fun (k, b) => (k, Json.bool b))))]
+    | none => []) = _
   cases n.vocabulary with
   | none => rfl
   | some l =>
-    cases l with
-    | nil => rfl
-    | cons v vs =>
-      show (match some (sortKV (v :: vs)) with
-        | some (v :: vs) => [("$vocabulary", Json.obj (sortKV ((v :: vs).map fun (k, b) => (k, Json.bool b))))]
-        | _ => []) = _
-      cases hs : sortKV (v :: vs) with
-      | nil => exact absurd hs (sortKV_cons_ne_nil _ _)
-      | cons y ys =>
-        dsimp only
-        rw [← hs, ← sortKV_map_val (fun x : String × Bool => (x.1, Json.bool x.2)) (fun _ => rfl), sortKV_idem]
+    show [("$vocabulary", Json.obj (sortKV ((sortKV l).map fun (k, b) => (k, Json.bool b))))] = _
+    rw [← sortKV_map_val (fun x : String × Bool => (x.1, Json.bool x.2)) (fun _ => rfl), sortKV_idem]
 
 theorem mDepReq_norm (n : Node) : mDepReq (normNode n) = mDepReq n := by
   unfold mDepReq
